@@ -1,0 +1,57 @@
+//! verification hook: snapshot of a `P2PSession` (child module, read-only)
+use super::P2PSession;
+use crate::verif::{status_pairs, EndpointSnap, P2PSnap};
+use crate::{Config, SessionState};
+
+impl<T: Config> P2PSession<T> {
+    /// Read-only projection of the session's internal state.
+    pub fn verif_snapshot(&self) -> P2PSnap {
+        let mut pending_local: Vec<_> = self.pending_local_inputs.keys().copied().collect();
+        pending_local.sort_unstable();
+        let outgoing = self
+            .outgoing_local_inputs
+            .iter()
+            .map(|(f, m)| {
+                let mut hs: Vec<_> = m.keys().copied().collect();
+                hs.sort_unstable();
+                (*f, hs)
+            })
+            .collect();
+        let mut checksum_history: Vec<_> = self.local_checksum_history.keys().copied().collect();
+        checksum_history.sort_unstable();
+        let mut remotes: Vec<EndpointSnap> = self
+            .player_reg
+            .remotes
+            .values()
+            .map(|e| e.verif_snap())
+            .collect();
+        remotes.sort_by(|a, b| a.handles.cmp(&b.handles));
+        let mut spectators: Vec<EndpointSnap> = self
+            .player_reg
+            .spectators
+            .values()
+            .map(|e| e.verif_snap())
+            .collect();
+        spectators.sort_by(|a, b| a.handles.cmp(&b.handles));
+        P2PSnap {
+            num_players: self.num_players,
+            max_prediction: self.max_prediction,
+            sparse: self.sparse_saving,
+            disconnect_frame: self.disconnect_frame,
+            running: self.state == SessionState::Running,
+            status: status_pairs(&self.local_connect_status),
+            next_spectator_frame: self.next_spectator_frame,
+            next_recommended_sleep: self.next_recommended_sleep,
+            frames_ahead: self.frames_ahead,
+            evq: self.event_queue.len(),
+            pending_local,
+            outgoing,
+            last_sent_outgoing: self.last_sent_outgoing_input_frame,
+            checksum_history,
+            last_sent_checksum: self.last_sent_checksum_frame,
+            sync: self.sync_layer.verif_snap(),
+            remotes,
+            spectators,
+        }
+    }
+}
